@@ -16,13 +16,14 @@ FAMS = ["concgo"]
 # ------------------------------------------------------------------ seeded generator of shapes
 def gen_programs(rng, n):
     out = []
-    shapes = [pipeline, fanin, fanout, selectfanin, buffered_only, pingpong, waitgroup, closer]
+    shapes = [pipeline, fanin, fanout, selectfanin, buffered_only, pingpong, waitgroup, closer, natburst]
     for i in range(n):
         f = shapes[i % len(shapes)]
         p = f(rng)
         p["shape"] = f.__name__
         # threads whose body is a single send / close may be started as `go` on a HOST function / builtin
-        p["native"] = [t + 1 for t, th in enumerate(p["threads"]) if t > 0 and len(th) == 1 and th[0]["op"] in ("send", "close") and rng.random() < 0.6]
+        p["native"] = [t + 1 for t, th in enumerate(p["threads"]) if t > 0 and len(th) == 1 and th[0]["op"] in ("send", "close") and (p.get("allnative") or rng.random() < 0.6)]
+        p.pop("allnative", None)
         p["style"] = rng.randint(0, 2)
         if rng.random() < 0.15:
             p = perturb(rng, p)
@@ -114,6 +115,15 @@ def closer(rng):
     n = rng.randint(1, 3)
     main = [I("send", ch=1, v=40 + i) for i in range(n)] + [I("go", t=2), I("range", ch=1), I("print")]
     return {"chans": [n], "threads": [main, [I("close", ch=1)]]}
+
+
+def natburst(rng):
+    """main starts n goroutines on a HOST function in a row (go p.Send(c, k)), then sums what arrives"""
+    n = rng.randint(2, 4)
+    chans = [rng.choice([0, 1, n])]
+    threads = [[]] + [[I("send", ch=1, v=10 * (k + 1) + k)] for k in range(n)]
+    threads[0] = [I("go", t=t) for t in range(2, n + 2)] + [I("recv", ch=1) for _ in range(n)] + [I("print")]
+    return {"chans": chans, "threads": threads, "allnative": True}
 
 
 def waitgroup(rng):
